@@ -182,10 +182,10 @@ def rand_scalar(rng, kind, valid=True):
     return "%d" % rng.choice([0, 1, 2, 3, 5, 8, 9, 13, -1, -4])
 
 
-def rand_listval(rng, kind, valid=True):
+def rand_listval(rng, kind, valid=True, lo=0, hi=5):
     if not valid:
         return rng.choice(["3", "s1"])
-    n = rng.randint(0, 5)
+    n = rng.randint(lo, hi)
     if kind == "rng":
         return S.show_list([rng.randint(-3, 3) for _ in range(n)])
     return S.show_list([rng.choice([0, 1, 2, 3, 5, 8, 9, 13, -1, -4]) for _ in range(n)])
@@ -209,9 +209,26 @@ def random_history(rng, maxcmds=12, gc_heavy=False, shape=None):
         specs = [(rng.choice(KINDS), rng.choice(KINDS), rng.choice(KINDS), rng.choice(KINDS)) for _ in range(nobj)]
     alive = list(range(nobj))
     # objects 0 and 1 are the two "sides"; the others are further / fresh partners
-    lens = {}
+    shadow = {}         # rough guess of every list (builtin-list semantics, linked lists copied): only used to
+                        # aim indices and slice bounds at existing positions
     cmds = []
     links = []          # (o, n, o2, n2) as requested, for plausible removals
+
+    def sh(o, n):
+        return shadow.setdefault((o, n), [])
+
+    def spread(o, n):
+        """copy the guessed list of (o, n) to everything linked with it"""
+        seen, todo = {(o, n)}, [(o, n)]
+        while todo:
+            u = todo.pop()
+            for (a, na, b, nb) in links:
+                for x, y in (((a, na), (b, nb)), ((b, nb), (a, na))):
+                    if x == u and y not in seen and y[0] in alive:
+                        seen.add(y)
+                        todo.append(y)
+        for y in seen:
+            shadow[y] = list(shadow.get((o, n), []))
     ncmd = rng.randint(1, maxcmds)
     big = 0
 
@@ -243,13 +260,23 @@ def random_history(rng, maxcmds=12, gc_heavy=False, shape=None):
         else:
             n2 = pick_name(not lst)   # cross-kind link (raises TraitError at link time)
         links.append((o, n, o2, n2))
+        if lst and n2 in LISTS:
+            spread(o, n)
         return "li %d %s %d %s %d" % (o, n, o2, n2, 1 if rng.random() < 0.7 else 0)
 
-    # usually start by linking
+    # usually start by linking, and give a linked list some content to work on
     if rng.random() < 0.85:
         c = link_cmd()
         if c:
             cmds.append(c)
+            w = c.split()
+            if w[2] in LISTS and rng.random() < 0.6:
+                o = int(w[1])
+                kind = specs[o][NAMES.index(w[2])]
+                v = rand_listval(rng, kind, True, lo=3, hi=7)
+                cmds.append("as %d %s %s" % (o, w[2], v))
+                shadow[(o, w[2])] = S.parse_list(v)
+                spread(o, w[2])
     while len(cmds) < ncmd and alive:
         r = rng.random()
         if gc_heavy and len(alive) > 1 and r < 0.18:
@@ -264,17 +291,34 @@ def random_history(rng, maxcmds=12, gc_heavy=False, shape=None):
             v = rand_listval(rng, kind, rng.random() < 0.9)
             cmds.append("as %d %s %s" % (o, n, v))
             if v.startswith("["):
-                lens[(o, n)] = v.count(",") + 1 if len(v) > 2 else 0
+                shadow[(o, n)] = list(S.parse_list(v))
+                spread(o, n)
         elif r < 0.72:
             o, n = pick_obj(), pick_name(True)
-            cur = lens.get((o, n), rng.randint(0, 4))
+            cur = len(sh(o, n))
             op = S.random_op(rng, min(cur, 12))
+            if cur >= 3 and rng.random() < 0.2:
+                # an extended slice selecting at least two positions (its event carries a slice index)
+                step = rng.choice([2, 2, -2, 3, -3, -2])
+                a = rng.choice([None, None, 0, 1, -1, cur - 1, rng.randint(-cur, cur)])
+                b = rng.choice([None, None, None, 0, cur, -1, rng.randint(-cur, cur)])
+                k = len(range(*slice(a, b, step).indices(cur)))
+                if k >= 2:
+                    if rng.random() < 0.6:
+                        op = "ss %s %s %d %s" % (S.show_opt(a), S.show_opt(b), step,
+                                                 S.show_list([rng.choice([0, 1, 2, 3, -1]) for _ in range(k)]))
+                    else:
+                        op = "ds %s %s %d" % (S.show_opt(a), S.show_opt(b), step)
             if op in ("im 2", "im 3"):
                 big += 1
-                if big > 2:
+                if big > 2 or cur > 8:
                     op = "im 1"
             cmds.append("mu %d %s %s" % (o, n, op))
-            lens[(o, n)] = min(12, max(0, cur + rng.choice([-1, 0, 0, 1, 1])))
+            try:
+                S.apply_op(sh(o, n), S.parse_op(op))
+                spread(o, n)
+            except Exception:
+                pass
         elif r < 0.84:
             c = link_cmd()
             if c:
